@@ -19,6 +19,7 @@ LEVEL = "model_checking"
 SIGMA = [
     b" ", b"\n", b"\r", b"\x00", b"%", b"/", b"#", b"(", b")", b"\\", b"<", b">",
     b"[", b"]", b"{", b"}", b"+", b"-", b".", b"1", b"8", b"a", b"n", b"z", b"\x80", b"true",
+    b"\x0b",  # VT: white space for Python's \s but not for PDF (added after seeded defect C14_4 was missed)
 ]
 # symbols that open, close or steer a multi-byte scanner state
 SIGMA12 = [b"(", b")", b"\\", b"<", b">", b"/", b"#", b"%", b"\r", b"\n", b"1", b"a", b"7"]
@@ -32,9 +33,9 @@ BOUNDS = {
 
 META = {
     "rule": (
-        "every string over the 26-symbol class alphabet up to sigma_len, over the 13 state-steering symbols up to "
+        "every string over the 27-symbol class alphabet up to sigma_len, over the 13 state-steering symbols up to "
         "sigma12_len, and over the 36-symbol extended alphabet up to sigx_len; each tokenised with BUFSIZ = 1..len+1 "
-        "and 4096; additionally every string over the 26-symbol alphabet up to seek_len is tokenised after seek(k) for every k "
+        "and 4096; additionally every string over the 27-symbol alphabet up to seek_len is tokenised after seek(k) for every k "
         "(all buffer sizes again). A case is one string (distinct by construction within a family); non-trivial = the reference run "
         "yields at least one token. states = strings (nodes of the string tree), transitions = (string, BUFSIZ) runs, "
         "traces = strings whose every run was compared with the single-buffer reference."
@@ -43,13 +44,76 @@ META = {
     "assumptions": [
         "bytes outside the class alphabet behave like their class representative (classes read off the scanner regexes and branches)",
         "strings longer than the bound are not explored",
-        "termination is judged by a counted refill budget of 8*len+64 fillbuf calls, not by time",
+        "termination is judged by counted budgets, not by time: 8*len+64 fillbuf calls, and 100*len+2000 PY_START+JUMP events inside pdfminer.psparser (sys.monitoring local events)",
     ],
 }
 
 
 class Livelock(Exception):
     pass
+
+
+class AbortShard(Exception):
+    """a livelock was found: every further case of the shard would burn its whole budget, so the shard stops
+    (the violation is already recorded; the run is then reported as not exhaustive)"""
+
+
+class Spin(BaseException):
+    """raised from the monitoring callback: too many loop iterations / calls inside the tokenizer
+    without returning (a loop that never calls fillbuf is invisible to the refill budget)"""
+
+
+_MON = {"on": False, "count": 0, "budget": 1 << 60}
+_TID = 4
+
+
+def _mon_cb2(code, off):
+    _MON["count"] += 1
+    if _MON["count"] > _MON["budget"]:
+        _MON["count"] = 0
+        raise Spin()
+
+
+def _mon_cb3(code, off, dst):
+    _MON["count"] += 1
+    if _MON["count"] > _MON["budget"]:
+        _MON["count"] = 0
+        raise Spin()
+
+
+def _mon_init():
+    """count PY_START and JUMP events in every function of pdfminer.psparser (local events only)"""
+    if _MON["on"]:
+        return
+    import sys
+    import types
+
+    import pdfminer.psparser as M
+
+    m = sys.monitoring
+    if m.get_tool(_TID) is None:
+        m.use_tool_id(_TID, "c14")
+    m.register_callback(_TID, m.events.PY_START, _mon_cb2)
+    m.register_callback(_TID, m.events.JUMP, _mon_cb3)
+
+    def codes(obj, seen):
+        if isinstance(obj, types.FunctionType):
+            obj = obj.__code__
+        if isinstance(obj, types.CodeType) and obj not in seen:
+            seen.add(obj)
+            for c in obj.co_consts:
+                codes(c, seen)
+
+    seen = set()
+    for v in vars(M).values():
+        if isinstance(v, type) and v.__module__ == M.__name__:
+            for a in vars(v).values():
+                codes(getattr(a, "__func__", a), seen)
+        elif isinstance(v, types.FunctionType) and v.__module__ == M.__name__:
+            codes(v, seen)
+    for c in seen:
+        m.set_local_events(_TID, c, m.events.PY_START | m.events.JUMP)
+    _MON["on"] = True
 
 
 class CountingParser(PSBaseParser):
@@ -75,6 +139,7 @@ def canon_tok(t):
 
 def tokenize(data: bytes, bufsiz: int, seek: int = 0):
     """Return (tokens, problems). problems is a list of (kind, detail)."""
+    _mon_init()
     p = CountingParser(io.BytesIO(data))
     p.BUFSIZ = bufsiz
     p.nfill = 0
@@ -83,6 +148,8 @@ def tokenize(data: bytes, bufsiz: int, seek: int = 0):
         p.seek(seek)
     toks = []
     problems = []
+    _MON["count"] = 0
+    _MON["budget"] = 100 * len(data) + 2000
     try:
         while True:
             pos, t = p.nexttoken()
@@ -98,7 +165,7 @@ def tokenize(data: bytes, bufsiz: int, seek: int = 0):
                 problems.append(("token-after-eof", (pos, canon_tok(t))))
             except PSEOF:
                 pass
-            except Livelock as e:
+            except (Livelock, Spin) as e:
                 problems.append(("livelock-after-eof", str(e)))
                 break
             except Exception as e:  # noqa
@@ -106,11 +173,14 @@ def tokenize(data: bytes, bufsiz: int, seek: int = 0):
                 break
     except Livelock as e:
         problems.append(("livelock", str(e)))
+    except Spin:
+        problems.append(("livelock", "more than 100*len+2000 calls/loop iterations inside the tokenizer"))
     except Exception as e:  # noqa
         import traceback
 
         tb = traceback.extract_tb(e.__traceback__)
         problems.append(("exception", f"{type(e).__name__}@{tb[-1].name}"))
+    _MON["budget"] = 1 << 60
     last = -1
     for pos, _ in toks:
         if not (0 <= pos < max(len(data), 1)) or pos < last:
@@ -118,6 +188,11 @@ def tokenize(data: bytes, bufsiz: int, seek: int = 0):
             break
         last = pos
     return toks, problems
+
+
+def _abort_if_livelock(problems) -> None:
+    if any(kind.startswith("livelock") for kind, _ in problems):
+        raise AbortShard()
 
 
 def check_string(data: bytes, st, fam: str) -> None:
@@ -128,11 +203,13 @@ def check_string(data: bytes, st, fam: str) -> None:
     case = {"data": data}
     for kind, detail in prob:
         st.violation(f"C14/{kind}:{detail if kind=='exception' else ''}", {**case, "bufsiz": 4096}, "only PSEOF; positions in range", detail, kind)
+    _abort_if_livelock(prob)
     for b in range(1, len(data) + 2):
         toks, prob2 = tokenize(data, b)
         st.transitions += 1
         for kind, detail in prob2:
             st.violation(f"C14/{kind}:{detail if kind=='exception' else ''}", {**case, "bufsiz": b}, "only PSEOF; positions in range", detail, kind)
+        _abort_if_livelock(prob2)
         if toks != ref and not prob2 and not prob:
             st.violation("C14/buffer-dependent", {**case, "bufsiz": b}, ref, toks, "token sequence differs from single-buffer run")
     st.traces += 1
@@ -181,6 +258,13 @@ def _strings(alpha, prefix, maxlen):
 
 
 def run_shard(shard, tier, st):
+    try:
+        _run_shard(shard, tier, st)
+    except AbortShard:
+        st.caps.append("shard stopped after a livelock was detected")
+
+
+def _run_shard(shard, tier, st):
     b = BOUNDS[tier]
     fam = shard[0]
     if fam == "seek":
